@@ -29,14 +29,20 @@ CHECKS = {
             "Expiry instants are exact under the virtual clock; every history over TTL values incl. negative, every observation moment.", "§4 C07", SCHED_NOTE),
     "C08": ("sched", "model_checking", "stateless model checking of the implementation: preemption-bounded DFS under a controlled scheduler, run twice - normal build (panic/deadlock/livelock oracle) and -race build with scheduler hand-offs invisible to the race detector",
             "Every unordered pair of the 12 API operation kinds, on conflicting keys with resident and pending entries: every schedule within the bound is executed; the race detector judges every explored schedule of the race build.", "§4 C08", SCHED_NOTE + " The Go race detector (ThreadSanitizer happens-before) is trusted."),
+    "C09": ("sched", "model_checking", "exhaustive enumeration of (population, costs, frequencies, incoming item, sampling-map order) configurations, each built and decided on the real cache under the sequential driver",
+            "Every configuration up to 4 (thorough 5) residents is built through the public API; the deciding applier step is judged against the TinyLFU / sampled-LFU discipline using white-box estimates read immediately before it, for every permutation of the sampling map order.", "§4 C09", SCHED_NOTE),
     "C10": ("seq", "model_checking", "explicit-state BFS over operation histories on the real z.Tree (exact page-bytes state key) against a map reference model",
             "Every operation sequence over adversarial key alphabets up to the depth bound, from every reachable state, at the smallest page sizes (splits after 4 keys) and up; long fill/delete histories at larger page sizes.", "§4 C10", SEQ_NOTE),
     "C11": ("seq", "model_checking", "explicit-state BFS over operation histories on the real z.Buffer against a byte-slice reference model",
             "All operation histories up to the depth bound from every reachable state, for every buffer configuration, plus exhaustive sort families around the 1024-slice chunking.", "§4 C11", SEQ_NOTE),
+    "C12": ("sched", "model_checking", "stateless model checking of the implementation: DFS over all schedules (preemption bound 8 quick / unbounded thorough) with every atomic operation on the packed index and the mutex as schedule points; normal + race-detector builds; plus all sequential histories to a depth bound",
+            "Disjointness, stability, exact sizes, alignment/zeroing and Copy equality are checked on every explored schedule of 2-4 allocating threads with sizes straddling chunk boundaries.", "§4 C12", SCHED_NOTE),
     "C13": ("sched", "model_checking", "explicit-state BFS over operation histories with every applier lag on the real cache (sequential driver: each event runs one thread exclusively; canonical white-box state key) + preemption-bounded DFS of two writers",
             "At every quiescent state of every bounded history: accounted keys == stored keys, IterValues == unexpired entries (with stop semantics), empty => full capacity.", "§4 C13", SCHED_NOTE),
     "C14": ("sched", "model_checking", "preemption-bounded DFS of sweep vs client re-writes (sweep's lock acquisitions are schedule points) + explicit-state BFS over operation histories with every applier lag on the real cache (sequential driver: each event runs one thread exclusively; canonical white-box state key) for applier stalls",
             "Safety and exactly-once of expiry processing on every explored schedule; bounded liveness on every bounded history. Two open known findings (check-then-act window in cleanup).", "§4 C14", SCHED_NOTE),
+    "C15": ("sched", "model_checking", "explicit-state BFS over histories of two client threads with every applier lag on the real cache (sequential driver), Close / Clear as ordinary repeatable events, probes after each",
+            "Every combination of resident entries, buffered new items / overwrites / tombstones, pending Wait markers (a second client blocked in Wait) and TTL entries precedes the Close/Clear; inertness / freshness is checked by probes and white-box state, thread termination from the scheduler's thread table.", "§4 C15", SCHED_NOTE),
     "C16": ("seq", "model_checking", "explicit-state BFS over histories with a Reopen event enabled in every state, on real file-backed trees; differential oracle before/after reopen",
             "Every clean-close point of every bounded history (including after DeleteBelow recycled pages) is closed, reopened and compared; the search continues from the reopened tree under the C10 oracle.", "§4 C16", SEQ_NOTE),
     "C17": ("sched", "model_checking", "explicit-state BFS over operation histories with every applier lag on the real cache (sequential driver: each event runs one thread exclusively; canonical white-box state key) + preemption-bounded DFS",
